@@ -175,6 +175,29 @@ def t_kwargs(*args, **kw):
         return a, b, c, sorted(rest.items())
     return inner(*args, **kw), inner(1, c=5), inner(a=3, d=4)
 
+def t_inplace_alias(n):
+    a = np.zeros(n)
+    b = a
+    b += 1.0
+    c = a[1:]
+    c *= 3.0
+    l = [1]
+    m = l
+    m += [2]
+    m *= 2
+    d = {"k": [0]}
+    d["k"] += [5]
+    t = (1,)
+    u = t
+    u += (2,)
+    x = 1.5
+    y = x
+    y += 1
+    s = {1}
+    r = s
+    r |= {2}
+    return a.tolist(), l, d, t, u, x, y, sorted(s), a is b, l is m
+
 def t_while_else(n):
     k = 0
     while k < n:
@@ -194,7 +217,7 @@ CALLS = [
     ("t_comprehensions", ([3, 1, 2],)), ("t_loops", (5,)), ("t_lambda_star", ([1, 2, 3],)), ("t_condexpr", (2,)), ("t_condexpr", (0,)),
     ("t_strings", ("name", 2.5)), ("t_try", (0,)), ("t_try", (3,)), ("t_closure", (4,)), ("t_classes", ()), ("t_dicts_sets", (["a", "b", "a"],)),
     ("t_numpy", (3,)), ("t_math", (2.5,)), ("t_slices", ([4, 2, 7, 1],)), ("t_assert_global", (2,)), ("t_kwargs", ((1, 2), {"c": 3, "e": 5})),
-    ("t_while_else", (3,)), ("t_chained", (1, 2, 3)), ("t_chained", (1, 3, 2)),
+    ("t_while_else", (3,)), ("t_inplace_alias", (3,)), ("t_chained", (1, 2, 3)), ("t_chained", (1, 3, 2)),
 ]
 
 CYTHON_CORPUS = r"""
